@@ -641,34 +641,44 @@ def lowestHolder (pts : List (Bytes × Nat)) : Option (Bytes × Nat) :=
 def newcomerShare (totalShare amount : Nat) (ds : List Deposit) : Nat :=
   ds.foldl (fun acc d => (acc + safeMulDiv totalShare d.amount amount) % U64) 0
 
+/-- `lowest` is computed once and kept until an eviction resets it -/
+def pickLowest (cur : Option (Bytes × Nat)) (pts : List (Bytes × Nat)) : Option (Bytes × Nat) :=
+  match cur with
+  | some e => some e
+  | none => lowestHolder pts
+
+/-- one iteration of the newcomer loop of `handleCappedBatchDeposit`: the ledger and the `lowest` pointer after it -/
+def cappedStep (chain : Nat) (isLocal : Bool) (nc : Newcomer) (l : Ledger) (lowest : Option (Bytes × Nat)) :
+    M (Ledger × Option (Bytes × Nat)) := do
+  if l.p.points.length < Gen.Dex.MaxLiquidityProviders then
+    let l ← batchDepositCore l.s nc.deposits chain l.x l.y isLocal (some l.p) false
+    pure (l, lowest)
+  else
+    match pickLowest lowest l.p.points with
+    | none => throw .InvalidLiquidityPool
+    | some low =>
+      let xOut := safeMulDiv l.x low.2 l.p.total
+      let yOut := safeMulDiv l.y low.2 l.p.total
+      let totalShare ← mapErr (liquidityDepositPoints (subU64 l.p.total low.2) (subU64 l.x xOut) (subU64 l.y yOut) nc.amount)
+      let share := newcomerShare totalShare nc.amount nc.deposits
+      if share ≤ low.2 then
+        let s ← if isLocal then do
+            let s ← poolSub l.s (holdingId chain) nc.amount
+            accountAdd s ((nc.deposits.head?.map (·.addr)).getD []) nc.amount
+          else pure l.s
+        pure ({ l with s := s }, some low)
+      else
+        let l ← batchWithdraw l.s [{ percent := 100, addr := low.1, id := [] }] chain l.x l.y isLocal (some l.p) false
+        let l ← batchDepositCore l.s nc.deposits chain l.x l.y isLocal (some l.p) false
+        pure (l, none)
+
 /-- the newcomer loop of `handleCappedBatchDeposit` -/
 def cappedLoop (chain : Nat) (isLocal : Bool) : List Newcomer → Ledger → Option (Bytes × Nat) → M Ledger
   | [], l, _ => .ok l
-  | nc :: rest, l, lowest => do
-    if l.p.points.length < Gen.Dex.MaxLiquidityProviders then
-      let l ← batchDepositCore l.s nc.deposits chain l.x l.y isLocal (some l.p) false
-      cappedLoop chain isLocal rest l lowest
-    else
-      let lowest := match lowest with
-        | some e => some e
-        | none => lowestHolder l.p.points
-      match lowest with
-      | none => throw .InvalidLiquidityPool
-      | some low =>
-        let xOut := safeMulDiv l.x low.2 l.p.total
-        let yOut := safeMulDiv l.y low.2 l.p.total
-        let totalShare ← mapErr (liquidityDepositPoints (subU64 l.p.total low.2) (subU64 l.x xOut) (subU64 l.y yOut) nc.amount)
-        let share := newcomerShare totalShare nc.amount nc.deposits
-        if share ≤ low.2 then
-          let s ← if isLocal then do
-              let s ← poolSub l.s (holdingId chain) nc.amount
-              accountAdd s ((nc.deposits.head?.map (·.addr)).getD []) nc.amount
-            else pure l.s
-          cappedLoop chain isLocal rest { l with s := s } (some low)
-        else
-          let l ← batchWithdraw l.s [{ percent := 100, addr := low.1, id := [] }] chain l.x l.y isLocal (some l.p) false
-          let l ← batchDepositCore l.s nc.deposits chain l.x l.y isLocal (some l.p) false
-          cappedLoop chain isLocal rest l none
+  | nc :: rest, l, lowest =>
+    match cappedStep chain isLocal nc l lowest with
+    | .error e => .error e
+    | .ok r => cappedLoop chain isLocal rest r.1 r.2
 
 /-- `handleBatchDeposit(…, checkCap = true, nil, true)` -/
 def batchDeposit (s : State) (b : Batch) (chain : Nat) (x y : Nat) (isLocal : Bool) : M Ledger := do
